@@ -169,7 +169,8 @@ def edge_passwords(chk, name, h, w, klass, flags):
 
 
 #: settings under which the shortest passwords are tried as well (one hash + verify each)
-VARIANTS = {"scrypt": [dict(block_size=64), dict(parallelism=65), dict(block_size=1, parallelism=1)], "fshp": [dict(variant=0), dict(variant=2), dict(variant=3)],
+VARIANTS = {"scrypt": [dict(block_size=64), dict(parallelism=65), dict(block_size=1, parallelism=1), dict(ident="$7$", block_size=64), dict(ident="$7$", parallelism=65),
+                       dict(ident="$7$", block_size=4096 + 7)], "fshp": [dict(variant=0), dict(variant=2), dict(variant=3)],
             "bcrypt_sha256": [dict(version=1)], "sun_md5_crypt": [dict(rounds=0)], "phpass": [dict(ident="H")], "sha256_crypt": [dict(rounds=5000)],
             "pbkdf2_sha256": [dict(salt_size=0)], "ldap_salted_sha1": [dict(salt_size=4), dict(salt_size=16)], "cisco_type7": [dict(salt=0), dict(salt=52)]}
 
